@@ -3,6 +3,8 @@
 //! input line: space separated groups
 //!   H:null           first group, optional: the application sets NO write callback (all four NULL)
 //!   I:<ops>          ops inside the configure callback (db_ops syntax), at most one, first
+//!   J:<ops>          (right after I:) rodbus_device_map_add_endpoint AGAIN for the same unit id, configure callback running <ops>;
+//!                    rendered as the op results if the callback ran, then dup=<T|F> (the call's return value)
 //!   T:<ops>          ops inside one rodbus_server_update_database transaction
 //!   W:<ops>|<hex>    one rodbus_server_update_database transaction whose callback FIRST sends the MBAP request
 //!                    <hex> (a write) to the case's served unit on the client connection and waits 200 ms for an
@@ -321,6 +323,24 @@ fn batch(ffi_rt: &FfiRuntime, lines: &[String]) -> Vec<String> {
                 if !r.is_empty() {
                     outs[k].push(r.join(";"));
                 }
+                for g in line.split_whitespace().filter(|g| g.starts_with("J:")) {
+                    let (state2, cb2) = batch_callback(&g[2..]);
+                    let (_app2, actx2) = leak_ctx(App::default());
+                    let handler2 = ffi::WriteHandler {
+                        write_single_coil: if null { None } else { Some(w_coil) },
+                        write_single_register: if null { None } else { Some(w_reg) },
+                        write_multiple_coils: if null { None } else { Some(w_coils) },
+                        write_multiple_registers: if null { None } else { Some(w_regs) },
+                        on_destroy: Some(noop_destroy),
+                        ctx: actx2,
+                    };
+                    let accepted = ffi::rodbus_device_map_add_endpoint(map, (k + 1) as u8, handler2, cb2);
+                    let r2 = state2.lock().unwrap().results.clone();
+                    if !r2.is_empty() {
+                        outs[k].push(r2.join(";"));
+                    }
+                    outs[k].push(format!("dup={}", if accepted { "T" } else { "F" }));
+                }
             }
             let filter = ffi::rodbus_address_filter_any();
             let port = free_port("127.0.0.1");
@@ -347,7 +367,7 @@ fn batch(ffi_rt: &FfiRuntime, lines: &[String]) -> Vec<String> {
                 let mut inside = 0;
                 let mut any_w = false;
                 for g in line.split_whitespace() {
-                    if g.starts_with("I:") || g.starts_with("H:") {
+                    if g.starts_with("I:") || g.starts_with("H:") || g.starts_with("J:") {
                         continue;
                     }
                     if let Some(ops) = g.strip_prefix("T:") {
